@@ -1,7 +1,7 @@
 package servicediscovery
 
-// Fallback decider (bounded, property C10): two real monitor rounds of the leader-assigned numbering
-// (~11 s: the 5 s round interval is hard coded). Group: leader + 4 followers registered in shuffled order with
+// Fallback decider (bounded, property C10): three real monitor rounds of the leader-assigned numbering
+// (~16 s: the 5 s round interval is hard coded). Group: leader + 4 followers registered in shuffled order with
 // distinct join times; one follower's first Rebalance call fails; between the rounds one follower re-registers under
 // its old name with a new connection and one follower is removed. Oracle: the leader is 1 of N+1 and announces a
 // numbering only when it changed; in every round every registered follower is told its number 2.. in join order and
@@ -27,10 +27,18 @@ type vfFollower struct {
 	got       [][2]int
 	failFirst bool
 	closed    bool
+	pingFails bool
 }
 
-func (f *vfFollower) Close() error      { f.mu.Lock(); f.closed = true; f.mu.Unlock(); return nil }
-func (f *vfFollower) Ping() error       { return nil }
+func (f *vfFollower) Close() error { f.mu.Lock(); f.closed = true; f.mu.Unlock(); return nil }
+func (f *vfFollower) Ping() error {
+	f.mu.Lock()
+	defer f.mu.Unlock()
+	if f.pingFails {
+		return errors.New("no pong")
+	}
+	return nil
+}
 func (f *vfFollower) Register() error   { return nil }
 func (f *vfFollower) IsConnected() bool { return true }
 func (f *vfFollower) Reconnect() error  { return nil }
@@ -84,34 +92,62 @@ func TestVerifFallbackMonitorRounds(t *testing.T) {
 		t.Fatalf("VIOLATION C10: round 1: leader announced %v, want exactly 1 of 5 once", announced)
 	}
 	mu.Unlock()
-	// between the rounds: a re-registers under its old name (new connection), d leaves
+	// between rounds 1 and 2: a re-registers under its old name with a new connection; the list of names is unchanged
 	a2 := &vfFollower{}
 	sd.Add(NewService(a2, "a", 100))
-	sd.Remove("d")
-	if !f["d"].closed {
-		t.Fatalf("VIOLATION C10: removing follower d did not close its connection")
+	if names := sd.GetAll(); len(names) != 4 || names[0] != "a" || names[1] != "b" || names[2] != "c" || names[3] != "d" {
+		t.Fatalf("VIOLATION C10: registry after the re-registration of a: %v, want [a b c d]", names)
 	}
-	if names := sd.GetAll(); len(names) != 3 || names[0] != "a" || names[1] != "b" || names[2] != "c" {
-		t.Fatalf("VIOLATION C10: registry after re-register of a and removal of d: %v, want [a b c]", names)
-	}
-	time.Sleep(5000 * time.Millisecond) // round 2
-	if l, k := a2.last(); k != 1 || l != [2]int{2, 4} {
-		t.Fatalf("VIOLATION C10: round 2: the re-registered follower a was told %v (%d calls), want 2 of 4", l, k)
+	time.Sleep(5000 * time.Millisecond) // round 2: nothing changed in the numbering, yet everybody is told again
+	if l, k := a2.last(); k != 1 || l != [2]int{2, 5} {
+		t.Fatalf("VIOLATION C10: round 2: the re-registered follower a was told %v (%d calls), want 2 of 5 (the numbering is re-sent every round)", l, k)
 	}
 	if _, k := f["a"].last(); k != 1 {
 		t.Fatalf("VIOLATION C10: round 2: the replaced connection of follower a was used again")
 	}
-	for n, num := range map[string]int{"b": 3, "c": 4} {
-		if l, k := f[n].last(); k != 2 || l != [2]int{num, 4} {
-			t.Fatalf("VIOLATION C10: round 2: follower %s was told %v (%d calls), want %d of 4", n, l, k, num)
+	for n, num := range map[string]int{"b": 3, "c": 4, "d": 5} {
+		if l, k := f[n].last(); k != 2 || l != [2]int{num, 5} {
+			t.Fatalf("VIOLATION C10: round 2: follower %s was told %v (%d calls), want %d of 5 again", n, l, k, num)
 		}
 	}
-	if _, k := f["d"].last(); k != 1 {
-		t.Fatalf("VIOLATION C10: round 2: the removed follower d was still numbered")
+	mu.Lock()
+	if len(announced) != 1 {
+		t.Fatalf("VIOLATION C10: the unchanged numbering was announced again: %v", announced)
+	}
+	mu.Unlock()
+	// between rounds 2 and 3: c is replaced by a new follower e (the group keeps its size), b stops answering pings
+	e := &vfFollower{}
+	sd.Remove("c")
+	if !f["c"].closed {
+		t.Fatalf("VIOLATION C10: removing follower c did not close its connection")
+	}
+	sd.Add(NewService(e, "e", 500))
+	f["b"].pingFails = true
+	time.Sleep(5000 * time.Millisecond) // round 3
+	if l, k := a2.last(); k != 2 || l != [2]int{2, 5} {
+		t.Fatalf("VIOLATION C10: round 3: follower a was told %v (%d calls), want 2 of 5", l, k)
+	}
+	if l, k := f["b"].last(); k != 3 || l != [2]int{3, 5} {
+		t.Fatalf("VIOLATION C10: round 3: follower b (not answering pings, still registered) was told %v (%d calls), want 3 of 5", l, k)
+	}
+	if l, k := f["d"].last(); k != 3 || l != [2]int{4, 5} {
+		t.Fatalf("VIOLATION C10: round 3: follower d was told %v (%d calls), want 4 of 5 after c left", l, k)
+	}
+	if l, k := e.last(); k != 1 || l != [2]int{5, 5} {
+		t.Fatalf("VIOLATION C10: round 3: the new follower e (the group kept its size) was told %v (%d calls), want 5 of 5", l, k)
+	}
+	if _, k := f["c"].last(); k != 2 {
+		t.Fatalf("VIOLATION C10: round 3: the removed follower c was still numbered")
 	}
 	mu.Lock()
+	if len(announced) != 1 {
+		t.Fatalf("VIOLATION C10: after round 3 the leader had announced %v, want only [1/5]", announced)
+	}
+	mu.Unlock()
+	sd.SetInfo(1, 4)
+	mu.Lock()
 	if len(announced) != 2 || announced[1] != (membership.Model{MemberNumber: 1, TotalMembers: 4}) {
-		t.Fatalf("VIOLATION C10: after round 2 the leader had announced %v, want [1/5 1/4]", announced)
+		t.Fatalf("VIOLATION C10: a changed numbering 1/4 was not announced: %v", announced)
 	}
 	mu.Unlock()
 	// a numbering already in effect is not announced again
